@@ -1,8 +1,8 @@
 """C07 — Results and recorded call graph do not depend on timing.
 
 SchedLab (stub S6): for a solver-chosen workflow shape, completion schedule (late / early / completion-during-event
-modes) and symbolic resource limit, the run is compared with a reference run of the same program (fresh backend, every
-job completing in submission order, ample resources): same returned value and the same sets of call-node hashes,
+modes) and symbolic resource limit, the run is compared with a reference run of the same program (fresh backend, strictly
+serial depth-first completions, ample resources): same returned value and the same sets of call-node hashes,
 argument hashes, argument/result value hashes and recorded handle hashes.  A second template passes a Handle to parallel
 chains of tasks under a resource limit.
 """
@@ -77,18 +77,19 @@ def _norm(v):
     return v
 
 
-def _run(kind, spec_or_n, pick, limits, leaf_limits, mid_limits, early, symbolic, with_bad):
+def _run(kind, spec_or_n, pick, limits, leaf_limits, mid_limits, early, symbolic, with_bad, reference=False):
     backend = _fresh_backend()
     salt = "S"
     if kind == "branches":
+        kw = {"fifo_tasks": ()} if reference else {}
         lab, outcome, _ = P.run_case(spec_or_n, pick, limits, leaf_limits, mid_limits, early=early, symbolic=symbolic,
                                      with_bad=with_bad, salt=salt, backend=backend, hog_limits=L._hog(limits),
-                                     run_kwargs={"execution_id": "E"})
+                                     run_kwargs={"execution_id": "E"}, **kw)
     else:
         from vp.stubs.schedlab import Lab
         hstep._task_options_base["limits"] = leaf_limits
         lab = Lab(pick, limits=limits, early=early, backend=backend, symbolic=symbolic,
-                  fifo_tasks=() if early == 1 else ("hmain",))
+                  fifo_tasks=() if (early == 1 or reference) else ("hmain",))
         outcome = lab.run(hmain(salt, spec_or_n), execution_id="E")
     out = (outcome[0], _norm(outcome[1]) if outcome[0] == "ok" else (type(outcome[1]).__name__, str(outcome[1])))
     return out, fingerprint(backend, "E"), lab
@@ -97,7 +98,10 @@ def _run(kind, spec_or_n, pick, limits, leaf_limits, mid_limits, early, symbolic
 def compare(kind, spec_or_n, pick, limits, leaf_limits, mid_limits, early, symbolic, with_bad):
     ref_limits = {"r": 1000}
     ref_demand = {"r": 1} if isinstance(leaf_limits, dict) else ["r"]
-    ref_out, ref_fp, _ = _run(kind, spec_or_n, lambda n, label: 0, ref_limits, ref_demand, mid_limits, 0, False, with_bad)
+    # reference: strictly serial, depth-first execution (the most recently submitted job completes first, so nothing ever
+    # runs concurrently and duplicates are served by the backend), ample resources
+    ref_out, ref_fp, _ = _run(kind, spec_or_n, lambda n, label: n - 1, ref_limits, ref_demand, mid_limits, 0, False, with_bad,
+                              reference=True)
     out, fp, lab = _run(kind, spec_or_n, pick, limits, leaf_limits, mid_limits, early, symbolic, with_bad)
     if out[0] == "deadlock" or ref_out[0] == "deadlock":
         return None  # termination is C09's subject
@@ -128,6 +132,7 @@ def c07_branches(k: int) -> bool:
         spec = L.pick_case(n, first, menu, fixed)
         if excluded("duplicate-failing-call-records-different-error-values") and _dup_failing(spec):
             return True
+        P.FLAGS["atomic_results"] = excluded("shared-result-object-changes-pickle")
         mid_limits = ["r"] if mid else None
         limits, leaf_limits, _, _ = L.symbolic_limits(form)
         return native(lambda: compare("branches", spec, choose, limits, leaf_limits, mid_limits, early, True, int(with_bad)) is None)
@@ -146,10 +151,11 @@ def c07_handles(k: int) -> bool:
 
 
 SHARED = [B[6], B[6], B[0]]
-_Q = [(3, f, 0, 0, 0, 0, L.NQ, None) for f in (0, 1, 2)] + [(3, 0, 0, 0, 0, 0, 4, SHARED), (3, 0, 1, 1, 0, 0, 4, SHARED),
+WRAPPED = [(1, 0, 0, 5), (1, 0, 0, 5), B[0]]  # the same non-leaf call returned by two different wrapper jobs
+_Q = [(3, 0, 0, 0, 0, 0, 4, WRAPPED), (3, 0, 0, 1, 1, 0, 4, WRAPPED)] + [(3, f, 0, 0, 0, 0, L.NQ, None) for f in (0, 1, 2)] + [(3, 0, 0, 0, 0, 0, 4, SHARED), (3, 0, 1, 1, 0, 0, 4, SHARED),
                                                             (3, 0, 0, 0, 1, 0, 4, [B[1], B[1], B[2]])]
 _T = [(3, f, 0, form, m, 0, len(B), None) for f in range(len(B)) for form in (0, 1) for m in (0, 1)] + [
-    (3, 0, e, 0, 0, 0, 4, SHARED) for e in (1, 2)] + [(4, 0, 0, 0, 0, 0, 4, L.DUP4), (3, 0, 0, 0, 0, 2, 4, L.ALLFAIL3)]
+    (3, 0, e, 0, 0, 0, 4, SHARED) for e in (1, 2)] + [(3, 0, 1, 1, 0, 0, 4, WRAPPED)] + [(4, 0, 0, 0, 0, 0, 4, L.DUP4), (3, 0, 0, 0, 0, 2, 4, L.ALLFAIL3)]
 CONDITIONS = [
     Condition(c07_branches, slices=_Q, thorough_slices=_T, timeout=300, thorough_timeout=2400, bounds=L.CONDITIONS[0].bounds),
     Condition(c07_handles, slices=[(2, 0, 0), (2, 1, 1)], thorough_slices=[(2, 0, 0), (2, 1, 0), (2, 2, 0), (3, 0, 0), (3, 0, 1)],
@@ -186,6 +192,19 @@ def replay(cond, args, extra):
     n, first, early, form, mid, with_bad, menu, fixed = extra["slice"]
     spec = [tuple(b) for b in fixed] if fixed is not None else [B[first]] + [B[nxt()] for _ in range(n - 1)]
     limits, leaf_limits = limits_of(form)
+    P.FLAGS["atomic_results"] = bool(extra.get("atomic_results"))
     v = compare("branches", spec, pick, limits, leaf_limits, ["r"] if mid else None, early, False, int(with_bad))
+    if v and not _dup_failing(spec) and "call_hashes" in v:
+        # is it only the pickle of a value that contains one shared result object several times?
+        P.FLAGS["atomic_results"] = True
+        pos[0] = 0
+        if fixed is None:
+            [nxt() for _ in range(n - 1)]
+        limits_of(form)
+        v2 = compare("branches", spec, pick, limits, leaf_limits, ["r"] if mid else None, early, False, int(with_bad))
+        P.FLAGS["atomic_results"] = False
+        if v2 is None:
+            return True, "branches %r, limits %r, leaf demand %r: %s (with atomic leaf results the runs agree)" % (
+                spec, limits, leaf_limits, v), "shared-result-object-changes-pickle"
     fid = "duplicate-failing-call-records-different-error-values" if v and _dup_failing(spec) and "hashes differ" in v else None
     return (v is not None), "branches %r, limits %r, leaf demand %r: %s" % (spec, limits, leaf_limits, v), fid
